@@ -248,6 +248,23 @@ def fen_to_struct(fen):
     return {"bd": bd, "stm": f[1], "cr": cr, "ep": ep}
 
 
+def struct_to_fen(pos):
+    pcs = "PNBRQKpnbrqk"
+    rows = []
+    for r in range(7, -1, -1):
+        row, run = "", 0
+        for f in range(8):
+            c = pos["bd"][r * 8 + f]
+            if c == 0:
+                run += 1
+            else:
+                row += (str(run) if run else "") + (pcs[c - 1] if 1 <= c <= 12 else "?")
+                run = 0
+        rows.append(row + (str(run) if run else ""))
+    ep = "-" if pos["ep"] < 0 else "abcdefgh"[pos["ep"] % 8] + str(pos["ep"] // 8 + 1)
+    return "/".join(rows) + " " + pos["stm"] + " " + ("".join(pos["cr"]) or "-") + " " + ep
+
+
 def load_fens(path):
     out = []
     for line in open(path):
